@@ -35,7 +35,7 @@ struct ArchiveStreams : Family {
 		p.world.push_back(t);
 		if (clm) {
 			size_t n = static_cast<size_t>(r.range(1, 6));
-			for (size_t i = 0; i < n; ++i) { Line tr = mkline("world", "track"); tr.set("name", randName(r, 1, 8, false)).set("cseed", hex64(r.next())).set("len", r.chance(1, 6) ? r.below(3) : r.below(900)); p.world.push_back(tr); }
+			for (size_t i = 0; i < n; ++i) { Line tr = mkline("world", "track"); tr.set("name", randName(r, 1, 8, false)).set("cseed", hex64(r.next())).set("len", r.chance(1, 6) ? r.below(3) : r.chance(1, 12) ? boundarySize(r, 12) : r.below(900)); p.world.push_back(tr); }
 		} else genMembers(p, r, 8, 900, true);
 		size_t nops = static_cast<size_t>(r.range(10, thorough ? 80 : 50));
 		for (size_t i = 0; i < nops; ++i) {
